@@ -569,7 +569,7 @@ func (e *Env) templateRules() {
 				continue
 			}
 			call := e.execCall(exec, ir.Param(0), ir.Param(1))
-			ok := hasGuard(lf, ir.NotCond(recvNil)) && lf.Ret[0].Op == ir.OExtract && lf.Ret[0].N == 0 && lf.Ret[0].Args[0].Key() == call.Key() && lf.Ret[1].Op == ir.OExtract && lf.Ret[1].N == 1 && lf.Ret[1].Args[0].Key() == call.Key()
+			ok := hasGuard(lf, ir.NotCond(recvNil)) && passesOn(lf, call)
 			c.Check(ok, rule, cons, e.P.Pos(lf.Pos), "executeTemplate(receiver, unmodified text) after the nil-report guard", "does not return executeTemplate(receiver, text) on the unmodified text under a nil-report guard: "+clip(lf.String()))
 		}
 		// ExportWith
@@ -589,7 +589,7 @@ func (e *Env) templateRules() {
 			}
 			call := ir.Call(ews, ir.Param(0), gstr)
 			readOK := ir.Bin("==", gerr, nilOf(errorType))
-			ok := hasGuard(lf, readOK) && lf.Ret[0].Op == ir.OExtract && lf.Ret[0].Args[0].Key() == call.Key() && lf.Ret[1].Op == ir.OExtract && lf.Ret[1].Args[0].Key() == call.Key()
+			ok := hasGuard(lf, readOK) && passesOn(lf, call)
 			if !ok && hasGuard(lf, readOK) {
 				// not a call of the own ExportWithString, but the same thing written out (a shared helper expanded in
 				// place): after the successful read the path is one of ExportWithString's own paths with the text
@@ -632,6 +632,28 @@ func sigDataIsInterface(exec *types.Func, dataIdx int) bool {
 		ts = append(ts, sig.Params().At(i).Type())
 	}
 	return dataIdx < len(ts) && types.IsInterface(ts[dataIdx])
+}
+
+// passesOn: the path returns the two results of call as they are: both of them unconditionally, or - written out
+// with an explicit error check - (nil, its error) where the error is not nil and (its reader, nil) where it is.
+// (That the call yields no reader together with an error, and no error together with a reader, is the callee's
+// own obligation.)
+func passesOn(lf *ir.Leaf, call *ir.Term) bool {
+	if len(lf.Ret) != 2 {
+		return false
+	}
+	r0 := &ir.Term{Op: ir.OExtract, N: 0, Args: []*ir.Term{call}}
+	r1 := &ir.Term{Op: ir.OExtract, N: 1, Args: []*ir.Term{call}}
+	isErr := ir.Bin("!=", r1, nilOf(errorType))
+	switch {
+	case lf.Ret[0].Key() == r0.Key() && lf.Ret[1].Key() == r1.Key():
+		return true
+	case hasGuard(lf, isErr) && isNilConst(lf.Ret[0]) && lf.Ret[1].Key() == r1.Key():
+		return true
+	case hasGuard(lf, ir.NotCond(isErr)) && lf.Ret[0].Key() == r0.Key() && isNilConst(lf.Ret[1]):
+		return true
+	}
+	return false
 }
 
 // execOperands: the positions (receiver first) of the template text and of the data among executeTemplate's operands.
@@ -703,7 +725,7 @@ func (e *Env) exportDelegates(rule string, ews, ew, exec, gts *types.Func, recvN
 			ok := isNilConst(lf.Ret[0]) && wrapOf(lf.Ret[1], spec.Sentinels["nil-report"])
 			c.Check(ok, rule, cons+" (nil report)", e.P.Pos(lf.Pos), "(nil, errs.Wrap(ErrNullPointer))", "a nil report is not reported as (nil, errs.Wrap(ErrNullPointer))")
 		default:
-			ok := hasGuard(lf, readOK) && hasGuard(lf, ir.NotCond(recvNil)) && lf.Ret[0].Op == ir.OExtract && lf.Ret[0].N == 0 && lf.Ret[0].Args[0].Key() == ecall.Key() && lf.Ret[1].Op == ir.OExtract && lf.Ret[1].N == 1 && lf.Ret[1].Args[0].Key() == ecall.Key()
+			ok := hasGuard(lf, readOK) && hasGuard(lf, ir.NotCond(recvNil)) && passesOn(lf, ecall)
 			c.Check(ok, rule, cons, e.P.Pos(lf.Pos), "executeTemplate(receiver, the reader's full, unmodified content) after the read succeeded and the nil-report guard", "exporting from a reader is not executeTemplate(receiver, full content of the reader) under a nil-report guard: "+clip(lf.String()))
 		}
 	}
